@@ -80,11 +80,11 @@ def reader_stubs(reader):
         return Int(cur(st), "usize")
 
     return [
-        (rx(r"^<R as (?:parse::)?read::Read<'_>>::peek$"), h_peek),
-        (rx(r"^<R as (?:parse::)?read::Read<'_>>::next$"), h_next),
-        (rx(r"^<R as (?:parse::)?read::Read<'_>>::discard$"), h_discard),
-        (rx(r"^<R as (?:parse::)?read::Read<'_>>::(position|peek_position)$"), h_position),
-        (rx(r"^<R as (?:parse::)?read::Read<'_>>::byte_offset$"), h_offset),
+        (rx(r"^<R as (?:parse::)?(?:read::)?Read<'\w+>>::peek$"), h_peek),
+        (rx(r"^<R as (?:parse::)?(?:read::)?Read<'\w+>>::next$"), h_next),
+        (rx(r"^<R as (?:parse::)?(?:read::)?Read<'\w+>>::discard$"), h_discard),
+        (rx(r"^<R as (?:parse::)?(?:read::)?Read<'\w+>>::(position|peek_position)$"), h_position),
+        (rx(r"^<R as (?:parse::)?(?:read::)?Read<'\w+>>::byte_offset$"), h_offset),
     ]
 
 
@@ -311,8 +311,12 @@ def h_passthrough(engine, st, fr, callee, argv, m):
 
 def h_vec_extend(engine, st, fr, callee, argv, m):
     src = argv[1]
+    while isinstance(src, Ref) and src.addr[0] == "V":
+        src = src.addr[1]
     if isinstance(src, Opaque) and src.label == "itoa":
         item = ("itoa", src.attrs["val"])
+    elif isinstance(src, Opaque) and src.label == "utf8char":
+        item = ("utf8char", src.attrs["char"])
     else:
         bs = bytes_of(engine, src)
         if bs is None:
@@ -347,7 +351,16 @@ def h_map_err_range(engine, st, fr, callee, argv, m):
     return EnumV("Result", r.discr, {0: list(r.variants.get(0, [UNINIT])), 1: [err]})
 
 
+def h_vec_as_slice(engine, st, fr, callee, argv, m):
+    n = next(engine.fresh)
+    sl = Opaque("symslice", "scratch", {"len": z3.BitVec("sl_len_%d" % n, 64), "arr": z3.Array("sl_arr_%d" % n, z3.BitVecSort(64), z3.BitVecSort(8)),
+                                        "content": st.notes.get("scratch", ())})
+    st.notes["symslice"] = sl
+    return Ref(("V", sl))
+
+
 SCRATCH_STUBS = [
+    (rx(r"^Vec::<u8>::as_slice$"), h_vec_as_slice),
     (rx(r"^Vec::<u8>::clear$"), h_vec_clear),
     (rx(r"^itoa::Buffer::new$"), h_itoa_new),
     (rx(r"^itoa::Buffer::format::<\w+>$"), h_itoa_format),
@@ -361,6 +374,80 @@ SCRATCH_STUBS = [
 ]
 
 
+def h_from_u32(engine, st, fr, callee, argv, m):
+    n = argv[0].e
+    valid = z3.And(z3.ULE(n, z3.BitVecVal(0x10FFFF, 32)),
+                   z3.Not(z3.And(z3.UGE(n, z3.BitVecVal(0xD800, 32)), z3.ULE(n, z3.BitVecVal(0xDFFF, 32)))))
+    st.events.append(("from_u32", n))
+    return mk_option(valid, Int(n, "char"))
+
+
+def h_encode_utf8(engine, st, fr, callee, argv, m):
+    return Ref(("V", Opaque("str", "utf8char", {"char": argv[0]})))
+
+
+def h_range_into_iter(engine, st, fr, callee, argv, m):
+    return argv[0]
+
+
+def h_range_next(engine, st, fr, callee, argv, m):
+    r = argv[0]
+    rng = engine.load(st, r.addr)
+    lo, hi = rng.fields[0], rng.fields[1]
+    more = z3.ULT(lo.e, hi.e)
+    return ("fork", [
+        (more, mk_option(True, Int(lo.e, lo.ty)), lambda s2: engine.store(s2, r.addr, Agg(rng.kind, rng.name, [Int(lo.e + 1, lo.ty), hi]))),
+        (z3.Not(more), mk_option(False, Int(lo.e, lo.ty)), None),
+    ])
+
+
+def h_range_incl_contains(engine, st, fr, callee, argv, m):
+    r, x = argv
+    if isinstance(r, Ref):
+        r = engine.load(st, r.addr)
+    if isinstance(x, Ref):
+        x = engine.load(st, x.addr)
+    lo, hi = r.fields[0], r.fields[1]
+    return BoolV(z3.And(z3.UGE(x.e, lo.e), z3.ULE(x.e, hi.e)))
+
+
+def h_call_once(engine, st, fr, callee, argv, m):
+    f, args = argv[0], argv[1]
+    fargs = list(args.fields) if isinstance(args, Agg) else [args]
+    if isinstance(f, Opaque) and f.ty == "fnitem":
+        target = engine.find_fn(f.label)
+        if target is None:
+            raise Unsupported("call_once of %r" % (f,))
+        return ("fork", [(z3.BoolVal(True), ("frame", target, fargs, None), None)])
+    target = closure_fn(engine, f)
+    if "{closure" not in target.name:
+        return ("fork", [(z3.BoolVal(True), ("frame", target, fargs, None), None)])
+    return ("fork", [(z3.BoolVal(True), ("frame", target, [f] + fargs, None), None)])
+
+
+def h_from_utf8(engine, st, fr, callee, argv, m):
+    ok = z3.Bool("utf8ok_%d" % next(engine.fresh))
+    st.events.append(("from_utf8", argv[0].attrs.get("content") if isinstance(argv[0], Opaque) else None, ok))
+    return mk_result(engine, z3.Not(ok), Opaque("str", "validated", {"content": argv[0].attrs.get("content") if isinstance(argv[0], Opaque) else None}),
+                     Opaque("Utf8Error", "e", {}))
+
+
+def h_chars(engine, st, fr, callee, argv, m):
+    return Opaque("Chars", "chars", {"of": argv[0]})
+
+
+def h_chars_next(engine, st, fr, callee, argv, m):
+    return mk_option(True, engine.sym_int("char", "decoded"))
+
+
+def h_option_unwrap(engine, st, fr, callee, argv, m):
+    o = argv[0]
+    if isinstance(o, EnumV):
+        return ("fork", [(o.discr == 1, o.variants.get(1, [UNINIT])[0], None),
+                         (o.discr != 1, ("diverge_marker",), None)])
+    raise Unsupported("unwrap of %r" % (o,))
+
+
 def h_panic(engine, st, fr, callee, argv, m):
     msg = argv[0].label if argv and isinstance(argv[0], Opaque) else callee
     return ("diverge", "PANIC", {"msg": "explicit panic: %s" % msg, "fn": fr.fn.name, "bb": fr.bb})
@@ -368,6 +455,15 @@ def h_panic(engine, st, fr, callee, argv, m):
 
 CORE_STUBS = [
     (rx(r"^core::panicking::(panic|panic_fmt|unreachable_display|panic_explicit)"), h_panic),
+    (rx(r"^(?:char::methods::<impl char>::|core::char::|char::)?from_u32$"), h_from_u32),
+    (rx(r"^char::methods::<impl char>::encode_utf8$"), h_encode_utf8),
+    (rx(r"^<std::ops::Range<u8> as IntoIterator>::into_iter$"), h_range_into_iter),
+    (rx(r"^<std::ops::Range<u8> as Iterator>::next$"), h_range_next),
+    (rx(r"^std::ops::RangeInclusive::<u8>::contains::<u8>$"), h_range_incl_contains),
+    (rx(r"^<F as FnOnce<.*>>::call_once$"), h_call_once),
+    (rx(r"^(?:core::str::|std::str::)?from_utf8$"), h_from_utf8),
+    (rx(r"^core::str::<impl str>::chars$"), h_chars),
+    (rx(r"^<Chars<'_> as Iterator>::next$"), h_chars_next),
     (rx(r"^(?:(?:std|core)::)?f64::<impl f64>::powi$"), h_powi),
     (rx(r"^<f64 as From<(u8|u16|u32|i8|i16|i32)>>::from$"), h_f64_from_int),
     (rx(r"^<(.*) as Try>::branch$"), h_try_branch),
@@ -397,6 +493,18 @@ def closure_fn(engine, cl):
         f = engine.ctx.index.get(cl.name)
         if f is not None:
             return f
+    if isinstance(cl, Opaque) and cl.ty == "const":
+        # capture-less closure / fn item constant:  `ZeroSized: {closure@file:l:c: l:c}`  or  `ZeroSized: path::<..>`
+        mm = re.search(r"(\{closure@[^}]*\})", cl.label)
+        if mm:
+            f = engine.ctx.index.get(mm.group(1))
+            if f is not None:
+                return f
+        mm = re.match(r"ZeroSized: (.*)$", cl.label)
+        if mm:
+            f = engine.find_fn(mm.group(1))
+            if f is not None:
+                return f
     raise Unsupported("cannot resolve closure %r" % (cl,))
 
 
